@@ -99,7 +99,7 @@ Proof.
   intros HA. induction ps as [|[text [p|]] r IH]; intros acc unk sec.
   - rewrite interp_go_nil. omono_tac.
   - rewrite interp_go_ref. apply omono_bind; [apply HA|]. intros pv.
-    destruct (to_string big_fuel pv) as [[s u] sc]. apply IH.
+    destruct (to_string (ts_need pv) pv) as [[s u] sc]. apply IH.
   - rewrite interp_go_text. apply IH.
 Qed.
 
